@@ -526,3 +526,62 @@ func c09round2(c *an.Ctx) {
 		}
 	}
 }
+
+func init() {
+	old := All["C09"].Run
+	All["C09"].Run = func(c *an.Ctx) {
+		old(c)
+		windowMembership(c, "C09.R10", "engine", 1)
+		c09rowWindowFromTimes(c)
+	}
+	All["C09"].Rules += " R10 R11"
+	addLevel("C09", "the store-side aggregate cursors decide 'same time bucket across two records' with the two-sided window test; the data fallback of sum/count takes the row window of every overlapping segment from that segment's decoded time column (findRowIdxRange), never from column lengths.")
+}
+
+// c09rowWindowFromTimes — C09.R11.  When a chunk is only partly covered by the query range, sum and
+// count are computed from the rows.  Which rows of a segment lie in the range is a question about
+// the segment's TIME column (findRowIdxRange over the decoded times); the value column's length
+// and null count say nothing about positions, a window built from them drops trailing rows.
+func c09rowWindowFromTimes(c *an.Ctx) {
+	const I = "engine/immutable"
+	r := c.Rule("C09.R11", "K-PROVENANCE", I+":readSumCountFromData — every overlapping segment's row window comes from findRowIdxRange over its decoded time column")
+	f := fn(r, I+":readSumCountFromData")
+	if f == nil {
+		return
+	}
+	rt := f.Find(call(r, I+":readTimeColumn"))
+	fr := f.Find(call(r, I+":findRowIdxRange"))
+	if r.Failed() {
+		return
+	}
+	skip := []an.AtomPred{an.AtomLike(`\.Overlaps\(`, false)}
+	f.LoopSelectsAllOrFails(r, rt, "the time column of every overlapping segment is decoded", skip...)
+	f.LoopSelectsAllOrFails(r, fr, "the row window of every overlapping segment is computed from its times", skip...)
+	// the window handed to the aggregation is the result of findRowIdxRange
+	use := f.Find(an.MNode("sumRangeValues / ValidCount(start, stop)", func(g *an.Fn, m ast.Node) bool {
+		ce, ok := m.(*ast.CallExpr)
+		if !ok {
+			return false
+		}
+		switch fun := ce.Fun.(type) {
+		case *ast.Ident:
+			return fun.Name == "sumRangeValues"
+		case *ast.SelectorExpr:
+			return fun.Sel.Name == "ValidCount"
+		}
+		return false
+	}))
+	r.AddSites(use.Len())
+	for _, s := range use.List {
+		ce := s.Node.(*ast.CallExpr)
+		okArgs := 0
+		for _, a := range ce.Args {
+			if strings.Contains(f.Canon(a), "findRowIdxRange(") {
+				okArgs++
+			}
+		}
+		if okArgs < 2 {
+			r.Fail(f.Name+": window not from the time column", c.P.Pos(ce.Pos()), "the row window of %s is not the result of findRowIdxRange (arguments: %s)", f.Canon(ce.Fun), f.Canon(ce))
+		}
+	}
+}
